@@ -1,9 +1,9 @@
 SPECIFICATION Spec
 CONSTANTS
-  KeyU = {1, 2, 3, 4, 5, 6, 7, 8, 9, 10, 11, 12, 13, 14}
+  KeyU = {1, 2, 3, 4, 5, 6, 7, 8, 9, 10, 11, 12, 13}
   ValU = {1}
-  MaxNodes = 24
-  M = 3
+  MaxNodes = 22
+  M = 4
 INVARIANTS BTInv Sorted GetOK MinMaxOK ShapeInv
 PROPERTIES Refines WorkBound
 VIEW View
